@@ -519,10 +519,11 @@ package catalog
 //@   ghostensures ret == urlTags(d)
 
 //@ func checkTagsDirective
-//@   tag C19 C01
+//@   tag C19 C02 C01
 //@   requires DirWF(d)
 //@   modifies nothing
 //@   ensures [C19] len(d.unnamedParameters) == 0 ==> ret != nil
+//@   ensures [C02] ret != nil ==> ret.file == d.keywordCoords.file && ret.index == d.keywordCoords.begin
 
 // exactly the tags named by the directive, in order; an undeclared name is rejected
 //@ func (*Catalog).tagsFromTagsDirective
@@ -533,6 +534,7 @@ package catalog
 //@   ensures [C19] ret1 == nil ==> len(ret0) == len(d.unnamedParameters) && len(ret0) >= 1
 //@        && (forall k :: 0 <= k && k < len(ret0) ==> has(c.Tags.data, d.unnamedParameters[k]) && ret0[k] == c.Tags.data[d.unnamedParameters[k]])
 //@   ensures [C11] (exists k :: 0 <= k && k < len(d.unnamedParameters) && !has(c.Tags.data, d.unnamedParameters[k])) ==> ret1 != nil
+//@   ensures [C02] ret1 != nil ==> ret1.file == d.keywordCoords.file && ret1.index == d.keywordCoords.begin
 //@   ensures [C11] (exists k :: 0 <= k && k < len(d.unnamedParameters) && has(c.Tags.data, d.unnamedParameters[k]) && c.Tags.data[d.unnamedParameters[k]] != nil && c.Tags.data[d.unnamedParameters[k]].automatic) ==> ret1 != nil
 //@   loop 1 invariant 0 - 1 <= rangeindex && rangeindex <= rangelen - 1 && rangelen == len(d.unnamedParameters) && len(tt) == rangeindex + 1 && c.Tags.mx == 0 && rangelen >= 1
 //@   loop 1 invariant forall k :: 0 <= k && k <= rangeindex ==> has(c.Tags.data, d.unnamedParameters[k]) && tt[k] == c.Tags.data[d.unnamedParameters[k]]
@@ -626,3 +628,10 @@ package catalog
 //@   tag C09 C01
 //@   modifies nothing
 //@   ensures [C09] isnil(ret1) ==> same(ret0, jsonIndentOf(box(*Catalog, c), "", "  "))
+
+// a path is rendered as written: the interaction ids (and the keys of the JSON object) are built from this text, and two
+// different paths must not get one key (C09)
+//@ func (Path).String
+//@   tag C09 C01
+//@   pure
+//@   ensures [C09] ret == p
